@@ -161,7 +161,7 @@ func (t *Traced) GetSigningAccounts() ([]runtime.Address, error) {
 	return t.Interface.GetSigningAccounts()
 }
 func (t *Traced) ProgramLog(s string) error {
-	if err := t.hit("ProgramLog", ""); err != nil {
+	if err := t.hit("ProgramLog", logDetail(s)); err != nil {
 		return err
 	}
 	return t.Interface.ProgramLog(s)
@@ -308,4 +308,12 @@ func (t *Traced) ProgramInterpreted(l runtime.Location, d time.Duration) {
 	if m, ok := t.Interface.(runtime.Metrics); ok {
 		m.ProgramInterpreted(l, d)
 	}
+}
+
+func logDetail(s string) string {
+	s = Unquote(s)
+	if len(s) > 48 {
+		s = s[:48]
+	}
+	return s
 }
